@@ -669,17 +669,43 @@ func (e *env) cidTok(c cid.Cid, root string) string {
 
 func (e *env) project(calls []call, t0, t1x time.Time, root string) []opT {
 	ops := []opT{}
+	// the blocks put by an add that got as far as its final pin: how many, how many raw, CID version of the dag-pb ones
+	pinned := false
+	for _, c := range calls {
+		if c.Svc == "Cluster" && c.M == "Pin" {
+			pinned = true
+		}
+	}
+	blocks := map[string]bool{}
+	nraw, pbv := 0, -1
+	for _, c := range calls {
+		if bc, ok := c.Arg.(cid.Cid); ok && c.M == "BlockPut" && !blocks[bc.String()] {
+			blocks[bc.String()] = true
+			if bc.Type() == cid.Raw {
+				nraw++
+			} else if v := int(bc.Version()); pbv == -1 || pbv == v {
+				pbv = v
+			} else {
+				pbv = 2 // mixed
+			}
+		}
+	}
 	for _, c := range calls {
 		var arg map[string]interface{}
+		if c.M == "BlockPut" {
+			if n := len(ops); n > 0 && ops[n-1].M == "BlockPut" {
+				continue // a run of block puts is one step of the add pipeline
+			}
+			arg = map[string]interface{}{"k": "block"}
+			if pinned {
+				arg = map[string]interface{}{"k": "block", "n": len(blocks), "raw": nraw, "pbv": pbv}
+			}
+			ops = append(ops, opT{Svc: c.Svc, M: c.M, Arg: arg})
+			continue
+		}
 		switch a := c.Arg.(type) {
 		case nil:
 			arg = map[string]interface{}{"k": "none"}
-			if c.M == "BlockPut" {
-				arg = map[string]interface{}{"k": "block"}
-				if n := len(ops); n > 0 && ops[n-1].M == "BlockPut" {
-					continue // a run of block puts is one step of the add pipeline
-				}
-			}
 		case *api.Pin:
 			if n := len(ops); c.M == "BlockAllocate" && n > 0 && ops[n-1].M == "BlockAllocate" {
 				continue // the adder asks again for every node while allocation fails: one step
